@@ -319,24 +319,13 @@ def ppasteStep (u : Uni) (md : Modes) (payload : Str) (seqTok : String) (impl : 
     s!"{showStr mout}|{mev}\t{impl}\t{v}"
   | _, _, _ => bad
 
-/-- The runes — all 128 ASCII runes and every listed row — at which the oracle built from the rows differs from Go's
-    tables on ASCII / above the Unicode range (`Spec.KeyEnc.asciiUni`): the hypothesis `AgreeOnKeys` of `Props/C13Uni`
-    evaluated on the harness's rows (a rune without a row has Go's default answers: no class, identity case maps). -/
-def agreeOnKeysBad (t : List URow) : List Int :=
-  let u := mkUni t []
-  let a := KeyEnc.asciiUni
-  (((List.range 128).map fun (r : Nat) => ((r : Nat) : Int)) ++ t.map (·.r)).filter fun r => KeyEnc.inKeyDom r &&
-    !(u.isUpper r == a.isUpper r && u.isLower r == a.isLower r && u.isLetter r == a.isLetter r &&
-      u.isGraphic r == a.isGraphic r && u.isPrint r == a.isPrint r &&
-      u.toUpper r == a.toUpper r && u.toLower r == a.toLower r)
-
 def step (line : String) : String :=
   let (op, impl) := splitTab line
   match fields op with
   | ["hypk", ut] =>
     match parseU? ut with
     | some t =>
-      let bad := agreeOnKeysBad t
+      let bad := VaxisModel.Driver.C09.agreeOnKeysBad t
       let model := if bad.isEmpty then "agree" else "differ"
       let v := if bad.isEmpty ∧ impl = "agree" then "ok"
                else s!"FAIL AgreeOnKeys (hypothesis of key_roundtrip_any_uni) does not hold of Go's unicode tables at {bad}"
